@@ -77,3 +77,72 @@ package pickle
 //@   loop 0: step BININT2: when op == 77 ensures ipos[d.r.r] == old(ipos)[d.r.r] + 3 && len(d.stack) == old(len(d.stack)) + 1 && d.stack[old(len(d.stack))] == mkint(conv("int", ibytes[d.r.r][old(ipos)[d.r.r] + 1]) | (conv("int", ibytes[d.r.r][old(ipos)[d.r.r] + 2]) << 8))
 //@   loop 0: step BININT: when op == 74 ensures ipos[d.r.r] == old(ipos)[d.r.r] + 5 && len(d.stack) == old(len(d.stack)) + 1 && d.stack[old(len(d.stack))] == mkint(conv("int", conv("int32", le32(ibytes[d.r.r], old(ipos)[d.r.r] + 1))))
 //@   loop 0: step BINFLOAT: when op == 71 ensures ipos[d.r.r] == old(ipos)[d.r.r] + 9 && len(d.stack) == old(len(d.stack)) + 1 && d.stack[old(len(d.stack))] == ifaceas("starlark.Float", f64frombits(le64(ibytes[d.r.r], old(ipos)[d.r.r] + 1)))
+
+// ---------------------------------------------------------------- encoder: output stream (bit-vector mode)
+// n = olen[w] is the number of bytes written to the underlying writer so far.
+
+//@ func (pickle.writer).Write
+//@   mode bv
+//@   ensures adv: result.0 == len(b) && result.1 == nil && olen[w.w] == old(olen)[w.w] + len(b)
+//@   ensures all: forall i: int :: 0 <= i && i < len(b) ==> obytes[w.w][old(olen)[w.w] + i] == b[i]
+//@   ensures f1: len(b) >= 1 ==> obytes[w.w][old(olen)[w.w]] == b[0]
+//@   ensures f2: len(b) >= 2 ==> obytes[w.w][old(olen)[w.w] + 1] == b[1]
+//@   ensures f3: len(b) >= 3 ==> obytes[w.w][old(olen)[w.w] + 2] == b[2]
+//@   ensures f4: len(b) >= 4 ==> obytes[w.w][old(olen)[w.w] + 3] == b[3]
+//@   ensures f5: len(b) >= 5 ==> obytes[w.w][old(olen)[w.w] + 4] == b[4]
+//@   ensures f6: len(b) >= 6 ==> obytes[w.w][old(olen)[w.w] + 5] == b[5]
+//@   ensures f7: len(b) >= 7 ==> obytes[w.w][old(olen)[w.w] + 6] == b[6]
+//@   ensures f8: len(b) >= 8 ==> obytes[w.w][old(olen)[w.w] + 7] == b[7]
+//@   ensures f9: len(b) >= 9 ==> obytes[w.w][old(olen)[w.w] + 8] == b[8]
+//@   ensures prefix: forall i: int :: 0 <= i && i < old(olen)[w.w] ==> obytes[w.w][i] == old(obytes)[w.w][i]
+//@   ensures others: forall o: value :: o != w.w ==> (olen[o] == old(olen)[o] && obytes[o] == old(obytes)[o])
+//@   modifies olen, obytes
+
+//@ func (pickle.writer).WriteByte
+//@   mode bv
+//@   ensures adv: olen[w.w] == old(olen)[w.w] + 1 && obytes[w.w][old(olen)[w.w]] == b && result == nil
+//@   ensures prefix: forall i: int :: 0 <= i && i < old(olen)[w.w] ==> obytes[w.w][i] == old(obytes)[w.w][i]
+//@   ensures others: forall o: value :: o != w.w ==> (olen[o] == old(olen)[o] && obytes[o] == old(obytes)[o])
+//@   modifies olen, obytes
+
+//@ func (pickle.writer).WriteString
+//@   mode bv
+//@   ensures adv: olen[w.w] == old(olen)[w.w] + len(s) && result.0 == len(s) && result.1 == nil
+//@   ensures all: forall i: int :: 0 <= i && i < len(s) ==> obytes[w.w][old(olen)[w.w] + i] == s[i]
+//@   ensures prefix: forall i: int :: 0 <= i && i < old(olen)[w.w] ==> obytes[w.w][i] == old(obytes)[w.w][i]
+//@   ensures others: forall o: value :: o != w.w ==> (olen[o] == old(olen)[o] && obytes[o] == old(obytes)[o])
+//@   modifies olen, obytes
+
+//@ func (*pickle.Encoder).memoized
+//@   mode bv
+//@   requires e != nil
+//@   ensures hit: result.1 == (comparable(x) && has(e.memo, x))
+//@   ensures id: result.1 ==> result.0 == e.memo[x]
+
+// Length-prefixed strings: one length byte below 256, otherwise four little-endian bytes
+// (stated precondition: the length fits 32 bits - the encoder silently truncates longer lengths).
+//@ func (*pickle.Encoder).encodeString
+//@   mode bv
+//@   requires e != nil
+//@   requires fits32: len(x) < 4294967296
+//@   requires stream-in-range: 0 <= olen[e.w.w] && olen[e.w.w] < 4611686018427387904
+//@   ensures short: len(x) < 256 ==> (olen[e.w.w] == old(olen)[e.w.w] + 2 + len(x) && obytes[e.w.w][old(olen)[e.w.w]] == opShort && obytes[e.w.w][old(olen)[e.w.w] + 1] == conv("byte", len(x)))
+//@   ensures short-body: len(x) < 256 ==> (forall i: int :: 0 <= i && i < len(x) ==> obytes[e.w.w][old(olen)[e.w.w] + 2 + i] == x[i])
+//@   ensures long: len(x) >= 256 ==> (olen[e.w.w] == old(olen)[e.w.w] + 5 + len(x) && obytes[e.w.w][old(olen)[e.w.w]] == opLong && le32(obytes[e.w.w], old(olen)[e.w.w] + 1) == conv("uint32", len(x)))
+//@   ensures long-body: len(x) >= 256 ==> (forall i: int :: 0 <= i && i < len(x) ==> obytes[e.w.w][old(olen)[e.w.w] + 5 + i] == x[i])
+//@   ensures prefix: forall i: int :: 0 <= i && i < old(olen)[e.w.w] ==> obytes[e.w.w][i] == old(obytes)[e.w.w][i]
+//@   modifies olen, obytes
+
+// Scalars and back-references, per width class (hit = the value is already in the memo).
+//@ func (*pickle.Encoder).encode variant bv
+//@   mode bv
+//@   requires e != nil
+//@   requires stream-in-range: 0 <= olen[e.w.w] && olen[e.w.w] < 4611686018427387904
+//@   ensures ref-short: (old(comparable(x) && has(e.memo, x)) && 0 <= old(e.memo[x]) && old(e.memo[x]) < 256) ==> (olen[e.w.w] == old(olen)[e.w.w] + 2 && obytes[e.w.w][old(olen)[e.w.w]] == 104 && obytes[e.w.w][old(olen)[e.w.w] + 1] == conv("byte", old(e.memo[x])))
+//@   ensures ref-long: (old(comparable(x) && has(e.memo, x)) && old(e.memo[x]) >= 256 && old(e.memo[x]) < 4294967296) ==> (olen[e.w.w] == old(olen)[e.w.w] + 5 && obytes[e.w.w][old(olen)[e.w.w]] == 106 && le32(obytes[e.w.w], old(olen)[e.w.w] + 1) == conv("uint32", old(e.memo[x])))
+//@   ensures int1: (!old(comparable(x) && has(e.memo, x)) && istype(x, "starlark.Int") && isint64(x) && 0 <= intval(x) && intval(x) < 256) ==> (olen[e.w.w] == old(olen)[e.w.w] + 2 && obytes[e.w.w][old(olen)[e.w.w]] == 75 && obytes[e.w.w][old(olen)[e.w.w] + 1] == conv("byte", intval(x)))
+//@   ensures int2: (!old(comparable(x) && has(e.memo, x)) && istype(x, "starlark.Int") && isint64(x) && 256 <= intval(x) && intval(x) < 65536) ==> (olen[e.w.w] == old(olen)[e.w.w] + 3 && obytes[e.w.w][old(olen)[e.w.w]] == 77 && obytes[e.w.w][old(olen)[e.w.w] + 1] == conv("byte", intval(x)) && obytes[e.w.w][old(olen)[e.w.w] + 2] == conv("byte", intval(x) >> 8))
+//@   ensures int4: (!old(comparable(x) && has(e.memo, x)) && istype(x, "starlark.Int") && isint64(x) && (intval(x) < 0 || intval(x) >= 65536) && -2147483648 <= intval(x) && intval(x) <= 2147483647) ==> (olen[e.w.w] == old(olen)[e.w.w] + 5 && obytes[e.w.w][old(olen)[e.w.w]] == 74 && le32(obytes[e.w.w], old(olen)[e.w.w] + 1) == conv("uint32", intval(x)))
+//@   ensures float: (!old(comparable(x) && has(e.memo, x)) && istype(x, "starlark.Float")) ==> (olen[e.w.w] == old(olen)[e.w.w] + 9 && obytes[e.w.w][old(olen)[e.w.w]] == 71 && le64(obytes[e.w.w], old(olen)[e.w.w] + 1) == f64bits(x.(starlark.Float)))
+//@   ensures prefix: forall i: int :: 0 <= i && i < old(olen)[e.w.w] ==> obytes[e.w.w][i] == old(obytes)[e.w.w][i]
+//@   modifies heap, olen, obytes
